@@ -9,7 +9,7 @@ def run(tier, seed):
                    extra_vo=('Model/Kernel.v', 'Model/ZMatrix.v', 'Model/Topology.v', 'Proofs/KernelP.v', 'Proofs/ZMatrixP.v', 'Corr/ZDriver.v', 'Gen/Tables.v'))
     rng = random.Random(seed)
     q = tier == 'quick'
-    zmat_cases(chk, rng, 32 if q else 400, (None, None, 'ideal'))
-    nor = 24 if (q and not chk.broken) else (64 if q else 400)
+    zmat_cases(chk, rng, 32 if q else 1600, (None, None, 'ideal'))
+    nor = 24 if (q and not chk.broken) else (64 if q else 1600)
     run_oracle(chk, rng, nor, 'zor.c05', 'c05-oracle', (None, None, 'ideal'))
     return chk.finish()
